@@ -15,7 +15,7 @@ EXPLANATION = (
     "partitions returned by compute_one_level pass through a filter that drops empty communities, and the initial partition consists "
     "of one-element sets.  R-C13-3: louvain_communities returns the LAST level of louvain_partitions (Vec::pop on its result, behind "
     "an emptiness test) or NoPartitions, and propagates its errors.  R-C13-4: within a level, communities are only changed by moving "
-    "a node's whole member set (difference / union with the same set).  NOT decided, stated plainly: that Louvain terminates, that each "
+    "a node's whole member set (difference / union with the same set).  R-C13-10: a community node's member set is built from its members' attribute sets.  NOT decided, stated plainly: that Louvain terminates, that each "
     "level is a coarsening of the previous one as a value-level fact, and that modularity never decreases -- these depend on run-time "
     "floating-point gains and are outside static reach."
 )
@@ -268,6 +268,38 @@ def run(ctx):
         ctx.require("get_all_edges" in cal9 and not adj9, "R-C13-9", "edge-loop", "the community edges are accumulated over get_all_edges()",
                     "generate_graph enumerates the member edges through %s instead of one pass over get_all_edges(): an adjacency walk sees an undirected edge from both ends and a self-loop once, so it needs a skip rule -- and a wrong one loses weight (e.g. the self-loops that carry a community's internal weight), after which the gains of the next level are computed from totals that are too small and modularity can decrease" % (adj9 or sorted(cal9)[:5]), loc_str(t.span))
     ctx.floor("R-C13-9", "community_edge_loops", n9, 1)
+    # ------------------------------------------------------------------ R-C13-10
+    # a node of the community graph stands for a SET OF ORIGINAL NODES, kept in its attributes; compute_one_level moves
+    # those sets between the communities of the partition of the ORIGINAL graph.  Names and member sets coincide only
+    # on the first level (the converted input graph: node i has attributes {i}); from then on the names are community
+    # indexes.  So the set given to a new community node is the union of its members' ATTRIBUTE sets.
+    ctx.rule("R-C13-10", "generate_graph gives a community node the union of its members' attribute sets (the original nodes), not the members' names")
+    n10 = 0
+    for b10 in [gg] + list(prog.closures_of(gg.path)):
+        f10 = flows.of(b10)
+        for t in b10.calls():
+            if not (t.callee and t.callee.short.endswith("Node::from_name_and_attributes") and len(t.args) >= 2):
+                continue
+            n10 += 1
+            sl10 = flows.slice(b10.path, f10._op_reads(t.args[1]), up=True, down="clos", data_only=True, roots=(gg.path,))
+            reads_attr = False
+            for (bp_, nd_) in sl10:
+                bb_ = prog.bodies[bp_]
+                if nd_[0] == "L" and isinstance(nd_[1], int):
+                    for (_x, st_) in bb_.assigns_to(nd_[1]):
+                        rv_ = getattr(st_, "rv", None)
+                        if rv_ is None:
+                            continue
+                        for pl_ in [rv_.place] + [o_.place for o_ in rv_.ops]:
+                            if pl_ is not None and "attributes" in pl_.fields():
+                                reads_attr = True
+                elif nd_[0] == "CALL":
+                    for a_ in bb_.blocks[nd_[1]].term.args:
+                        if a_.place is not None and "attributes" in a_.place.fields():
+                            reads_attr = True
+            ctx.require(reads_attr, "R-C13-10", "member-sets|%d" % n10, "the member set of a community node is built from its members' attributes",
+                        "generate_graph builds the member set of a community node without reading its members' `attributes`: from the third level on the members are community indexes of the level below, not original nodes, so compute_one_level moves the wrong ids between communities -- the later levels are no longer partitions of the graph nor coarsenings of the level before", loc_str(t.span))
+    ctx.floor("R-C13-10", "community_nodes_built", n10, 1)
     # ------------------------------------------------------------------ R-C13-8
     from engines import check_unwrapped_callee_kinds
 
